@@ -2,6 +2,7 @@ import CfbVerif.Phys.Mini
 import CfbVerif.Phys.Api
 import CfbVerif.Phys.MiniInv
 import CfbVerif.Phys.NoPanic
+import CfbVerif.Phys.NoPanicApi
 import CfbVerif.Phys.Load
 /-!
 # C11 — mutating any file the library agreed to open never panics or hangs
@@ -37,7 +38,9 @@ Proved here, for *arbitrary* tables (no consistency assumed beyond the stated ra
   error, never one of the model's panic exits, and the two conditions hold again afterwards
   (`C11_history_keeps_ranges`: after any history); `C11_open_establishes_ranges`: the caches `open`
   builds satisfy them for whatever tables it read, in particular for every accepted file the
-  two-level model can be loaded from (`C11_loaded_state_in_range`).  This is the composition over
+  two-level model can be loaded from (`C11_loaded_state_in_range`); composed once more over the API level
+  (`Phys/NoPanicApi.lean`): `C11_api_history_never_panics` — along every API history from every such
+  image no call reaches a panic exit of the allocation level.  This is the composition over
   the whole write path that the primitive lemmas above lacked — for the panic exits; the `hang`
   exits (fuel) are not covered, nor is the directory level.
 * `C11_mini_pop_safe_reachable`, `C11_reuse_safe_reachable`: both range conditions hold in *every*
@@ -252,6 +255,19 @@ theorem C11_loaded_state_in_range (img : Raw.Img) (maxBuf : Nat) (ps : PState)
         · cases h
           exact wk_of_indices _ rfl rfl
   · cases h
+
+/-- **from every accepted image the two-level model can be loaded from, along every API history, no
+call reaches a panic exit of the allocation level** — whatever the image's tables look like
+(`ofImage` takes them over as they are; only the directory must be a tree whose streams can be
+read) -/
+theorem C11_api_history_never_panics (img : Raw.Img) (maxBuf : Nat) (ps : PState)
+    (h : ofImage img maxBuf = some ps) (ops : List CfbVerif.Dir.HOp) : NoPanicRun ps ops :=
+  noPanicRun ops ps (C11_loaded_state_in_range img maxBuf ps h)
+
+/-- … and so from a fresh file -/
+theorem C11_api_history_never_panics_fresh (v4 : Bool) (maxBuf : Nat) (ops : List CfbVerif.Dir.HOp) :
+    NoPanicRun (PState.create v4 maxBuf) ops :=
+  noPanicRun ops _ ⟨fun i hi => by simp [PState.create, Phys.create] at hi, fun i hi => by simp [PState.create, Phys.create] at hi⟩
 
 /-- the premise is met by a damaged state — the MiniFAT chain cut under the in-memory MiniFAT (F20) —
 and the operation that used to trip the assertion is answered with an error -/
